@@ -602,8 +602,11 @@ fn template(r: &mut Rng, lazy: bool) -> (String, String, u64, &'static str) {
         2 => {
             // scan over a literal with L one-character matches and an empty arm
             let l = r.range(1, 60);
-            let subject = "a".repeat(l);
-            let min = (m * (1 + l)) as u64 + if lazy { m as u64 } else { 0 };
+            // half of the subjects end in a tail that no arm matches: the pass of the loop that
+            // tries every arm on the tail and finds none is one more iteration
+            let tail = if r.chance(1, 2) { r.range(1, 5) } else { 0 };
+            let subject = format!("{}{}", "a".repeat(l), "b".repeat(tail));
+            let min = (m * (1 + l + if tail > 0 { 1 } else { 0 })) as u64 + if lazy { m as u64 } else { 0 };
             (
                 format!(
                     "(pass_statement) @_p\n{{\n  scan \"{}\" {{\n    \"a\" {{\n    }}\n  }}\n}}\n",
